@@ -53,6 +53,7 @@ UTypes ==
             kids |-> FD(ListOf(Named("A")), <<>>),
             boom |-> FD(S, <<>>),
             many |-> FD(S, <<>>),
+            half |-> FD(S, <<>>),
             tag  |-> FD(S, <<AD("s", S)>>) ] ],
     B |->
       [ kind |-> "OBJECT", ifaces |-> <<"Named">>, members |-> <<>>,
@@ -82,9 +83,9 @@ UData ==
              need  |-> V("echo", 0), obj |-> V("echo", 0) ],
     m  |-> [ set |-> V("echo", 0), a |-> NodeV("a2") ],
     a1 |-> [ name |-> StrV("a1"), n |-> IntV(1), peer |-> NodeV("b1"), self |-> NodeV("a1"),
-             kids |-> ListV(<<NodeV("a2")>>), boom |-> ErrV("boom fails"), many |-> V("errs", 2), tag |-> V("echo", 0) ],
+             kids |-> ListV(<<NodeV("a2")>>), boom |-> ErrV("boom fails"), many |-> V("errs", 2), half |-> V("errval", "part"), tag |-> V("echo", 0) ],
     a2 |-> [ name |-> StrV("a2"), n |-> IntV(2), peer |-> NodeV("b1"), self |-> NodeV("a2"),
-             kids |-> ListV(<<>>), boom |-> ErrV("boom fails"), many |-> V("errs", 3), tag |-> V("echo", 0) ],
+             kids |-> ListV(<<>>), boom |-> ErrV("boom fails"), many |-> V("errs", 3), half |-> V("errval", "part"), tag |-> V("echo", 0) ],
     b1 |-> [ name |-> StrV("b1"), flag |-> BoolV(TRUE), peer |-> NodeV("a1") ] ]
 
 UExec == [ types |-> UTypes, nodeType |-> UNodeType, data |-> UData,
